@@ -1077,3 +1077,10 @@ M("C04-public-typedef-hides-protected-type", "C04", "src/interrogate/typeManager
 M("C04-benign-typedef-arm-local", "C04", "src/interrogate/typeManager.cxx",
   "  case CPPDeclaration::ST_typedef:\n    return involves_protected(type->as_typedef_type()->_type);", "  case CPPDeclaration::ST_typedef: {\n    CPPType *aliased = type->as_typedef_type()->_type;\n    return involves_protected(aliased);\n  }",
   benign=True)
+
+M("C02-bool-ranked-as-integer", "C02", "src/interrogate/interfaceMakerPythonNative.cxx",
+  "  } else if (TypeManager::is_integer(type) && !TypeManager::is_bool(type)) {\n    return 5;", "  } else if (TypeManager::is_integer(type)) {\n    return 5;",
+  expect="R02.6|get_type_sort|integer-rank-excludes-bool")
+M("C02-benign-bool-rank-first-in-chain", "C02", "src/interrogate/interfaceMakerPythonNative.cxx",
+  "  if (TypeManager::is_nullptr(type)) {\n    return 15;\n  } else if (TypeManager::is_pointer_to_Py_buffer(type)) {", "  if (TypeManager::is_bool(type)) {\n    return 1;\n  } else if (TypeManager::is_nullptr(type)) {\n    return 15;\n  } else if (TypeManager::is_pointer_to_Py_buffer(type)) {",
+  benign=True)
